@@ -504,10 +504,8 @@ where
     fn split_text<'b>(&'slf self, delimiter: &'b str) -> SplitTextIter<'store, 'b> {
         SplitTextIter {
             resource: self.resource(),
-            iter: self.store().text().split(delimiter),
-            byteoffset: self
-                .subslice_utf8_offset(self.text())
-                .expect("subslice must succeed for split_text"),
+            iter: self.text().split(delimiter), //only the text of this selection is split
+            byteoffset: 0, //the pieces are slices of the resource's text, their offsets are already absolute
         }
     }
 
@@ -705,10 +703,8 @@ where
     fn split_text<'b>(&'slf self, delimiter: &'b str) -> SplitTextIter<'store, 'b> {
         SplitTextIter {
             resource: self.resource(),
-            iter: self.store().text().split(delimiter),
-            byteoffset: self
-                .subslice_utf8_offset(self.text())
-                .expect("subslice must succeed for split_text"),
+            iter: self.text().split(delimiter), //only the text of this selection is split
+            byteoffset: 0, //the pieces are slices of the resource's text, their offsets are already absolute
         }
     }
 
